@@ -1398,6 +1398,21 @@ prop(dict(
 ))
 
 
+prop(dict(
+    id="G05", fam="G05",
+    mc=[("AV1LossMC.tla", "AV1LossMC.cfg", {}), ("AV1LossMC.tla", "AV1LossMCNoResync.cfg", {}, "expect_violation")],
+    gen=[("AV1LossGen.tla", "AV1LossGen.cfg", {"thorough": {"Sizes": "{3, 4, 5, 9, 10, 14, 19, 24, 29}", "Mtus": "{4, 6, 11, 16}"}})],
+    trace=("AV1LossTrace.tla", "AV1LossTrace.cfg"),
+    shards={"quick": 2, "thorough": 12},
+    nontrivial=lambda c: len(c["packets"]) >= 2,
+    class_of=lambda c: c["class"],
+    exhaustive=True,
+    rule="GROWTH: every loss subset of the packets of a three-OBU frame from the reference sender (one OBU fragmented over up to five packets, with and without extension headers), "
+         "followed by an intact frame; AV1Depacketizer's output for EVERY delivered packet is compared with the reference receiver of AV1Loss.tla (the OBUs that packet completes, with size fields)",
+    assumptions=COMMON_ASSUME + ["not one of the listed properties: findings are reported in DESIGN.md 9.7, never as a listed property's violation"],
+))
+
+
 for _id in ("C02", "C03", "C08", "C09", "C10", "C14"):
     PROPS[_id]["rule"] += CORPUS_RULE
 
